@@ -240,4 +240,20 @@ theorem fixed_F_C10_9_general (fx : Fixes) (s : Fs) (p : Path) (fl : Flags) (hfx
     openFsFx fx s p fl = .error (if fl.n then .alreadyexists else .isdir) :=
   openFsFx_dir_fails fx s p fl hfx hd hf hc
 
+def fx10 : Fixes := { fsyncResolve := true }
+theorem witness_F_C10_10 : run {} St.init (quiet hist10) ≠ lRun Live.init hist10 := by decide
+/-- F-C10-10 repaired: fsync through the new name of a renamed file flushes the file's data into the
+    inode (still keyed by the old name); the following sync_dir moves it along -/
+theorem fixed_F_C10_10 : runFx fx10 {} St.init (quiet hist10) = lRun Live.init hist10 := by decide
+
+def fx3 : Fixes := { dataKeyResolve := true }
+theorem witness_F_C10_3 : run {} St.init (quiet hist3) ≠ lRun Live.init hist3 := by decide
+/-- F-C10-3 narrowed: a write through the new name of a file with a pending rename is keyed by the
+    name the inode still has and is therefore visible -/
+theorem fixed_F_C10_3 : runFx fx3 {} St.init (quiet hist3) = lRun Live.init hist3 := by decide
+/-- what stays open: a file created under the *old* name of a pending rename shares the old key with
+    the renamed file — its bytes show up in the renamed file as well -/
+def hist3c : List Op := [.open 0 a WC, .close 0, .rename a b, .writeFile a [65, 66], .readFile b]
+theorem open_F_C10_3_aliasing : runFx fx3 {} St.init (quiet hist3c) ≠ lRun Live.init hist3c := by decide
+
 end TV.C10
